@@ -327,8 +327,10 @@ class Encoder:
                 whole_vec = e["callee"].endswith("::append") or (src is not None and any(
                     x[0] == "call" and x[1] and x[1].endswith("as std::ops::Deref>::deref") and "Vec" in x[1] for x in walk(src)) and not any(
                     x[0] == "call" and x[1] and "ops::Index" in x[1] for x in walk(src)))
-                if whole_vec:
-                    break  # a group flush: what follows re-initialises the group buffer
+                stored_into = [strip_refs(w_["place"][1]) for w_ in p.events if w_["k"] == "write" and w_["place"][0] == "index"]
+                from_written = src is not None and any(any(norm(x) == norm(b_) for x in walk(src)) for b_ in stored_into)
+                if whole_vec or from_written:
+                    break  # a group flush (or the array the bytes above were stored into): what follows re-initialises it
                 # token bytes assembled elsewhere (an array, an integer's bytes) and appended in one go
                 self.emission_unknown = "token bytes appended with extend_from_slice from %s" % fmt(src)[:60]
                 continue
